@@ -70,6 +70,49 @@ def _vf_install_format_stub():
                 base = deep_realize(base)
         return int(val) if base is _MISSING else int(val, base=base)
 
+    # str()/repr() of builtin containers: render the elements under tracing instead of letting the C
+    # implementation realise every symbolic element (which makes the path tree infinite)
+    from crosshair.libimpl.builtinslib import invoke_dunder
+
+    def _vf_container(obj, depth=0):
+        with NoTracing():
+            t = type(obj)
+            if t.__module__.startswith("crosshair") and not isinstance(obj, AnySymbolicStr):
+                return "<sym>"
+            if getattr(t, "_vf_abstract", False):
+                return "<sym>"
+            is_dict = isinstance(obj, dict)
+            is_seq = isinstance(obj, (list, tuple)) and not hasattr(t, "_fields")
+        if depth > 6:
+            return "<deep>"
+        if is_dict:
+            return "{" + ", ".join([_repr(k) + ": " + _repr(v) for k, v in obj.items()]) + "}"
+        if is_seq:
+            return "[" + ", ".join([_repr(x) for x in obj]) + "]"
+        return None
+
+    def _repr(obj):
+        r = _vf_container(obj)
+        if r is not None:
+            return r
+        return invoke_dunder(obj, "__repr__")
+
+    def _str(*a):
+        if len(a) == 1:
+            with NoTracing():
+                symstr = isinstance(a[0], AnySymbolicStr)
+            if symstr:
+                return a[0]
+            r = _vf_container(a[0])
+            if r is not None:
+                return r
+            return invoke_dunder(a[0], "__str__")
+        return str(*a)
+
+    C._PATCH_REGISTRATIONS[repr] = _repr
+    C._PATCH_REGISTRATIONS[str] = _str
+    B._repr = _repr
+    B._str = _str
     C._PATCH_REGISTRATIONS[int] = _int
     B._int = _int
     B._vf_format_installed = True
